@@ -216,4 +216,250 @@ theorem HS_mark (g : Grammar) (s : St) (el : Nat) (name : Option String) (f : Bo
         (HS_heap_eq rfl) (HS_extract _ el)
     · exact HS_heap_eq rfl
 
+/-! ### the hypothesis: every element draws something -/
+
+/-- the element is shown, its children exist, `dispatch` creates a partial for it, and a one-item
+    wrapper has a child to put into the item -/
+def drawOK (g : Grammar) (o : Opts) (n : Node) : Bool :=
+  (n.shown || o.showHidden) && n.kids.all (fun c => decide (c < g.length)) &&
+  (match dispatch g o n "" with
+   | none => false
+   | some pn => match pn.kw with
+     | .item _ => !n.kids.isEmpty
+     | _ => true)
+
+def drawsAll (g : Grammar) (o : Opts) : Bool := g.all (drawOK g o)
+
+theorem dispatch_kw_name (g : Grammar) (o : Opts) (n : Node) (name : String) :
+    (dispatch g o n name).map (·.kw) = (dispatch g o n "").map (·.kw) := by
+  unfold dispatch
+  simp only [apply_ite (Option.map (fun (p : PNode) => p.kw))]
+  simp
+
+def kwShapeOK : Option PNode → Bool
+  | none => true
+  | some pn => match pn.kw with
+    | .items l => l.isEmpty
+    | _ => true
+
+theorem dispatch_shape (g : Grammar) (o : Opts) (n : Node) (name : String) :
+    kwShapeOK (dispatch g o n name) = true := by
+  unfold dispatch
+  simp only [apply_ite kwShapeOK]
+  simp [kwShapeOK]
+
+/-- what `drawOK` gives for the actual name -/
+theorem drawOK_dispatch {g : Grammar} {o : Opts} {n : Node} (h : drawOK g o n = true) (name : String) :
+    ∃ pn, dispatch g o n name = some pn ∧
+      (pn.kw = .items [] ∨ (∃ v, pn.kw = .item v ∧ n.kids.isEmpty = false) ∨ pn.kw = .leaf) := by
+  unfold drawOK at h
+  simp only [Bool.and_eq_true] at h
+  obtain ⟨_, h3⟩ := h
+  have hk := dispatch_kw_name g o n name
+  have hs := dispatch_shape g o n name
+  cases hd0 : dispatch g o n "" with
+  | none => rw [hd0] at h3; simp at h3
+  | some pn0 =>
+    rw [hd0] at h3 hk
+    cases hd : dispatch g o n name with
+    | none => rw [hd] at hk; simp at hk
+    | some pn =>
+      rw [hd] at hk hs
+      simp only [Option.map_some, Option.some.injEq] at hk
+      refine ⟨pn, rfl, ?_⟩
+      simp only [kwShapeOK] at hs
+      have hk' : pn0.kw = pn.kw := hk.symm
+      simp only at h3
+      rw [hk'] at h3
+      cases hkw : pn.kw with
+      | leaf => exact Or.inr (Or.inr rfl)
+      | item v =>
+        rw [hkw] at h3
+        simp only [Bool.not_eq_true'] at h3
+        exact Or.inr (Or.inl ⟨v, rfl, h3⟩)
+      | items l =>
+        rw [hkw] at hs
+        simp only [List.isEmpty_iff] at hs
+        exact Or.inl (by rw [hs])
+
+/-! ### the loop over the children -/
+
+/-- state inside the loop of the call that entered at `s` and registered the partial `ret` -/
+structure LS (s sk : St) (ret : Nat) : Prop where
+  hret : s.heap.length ≤ ret
+  hlen : s.heap.length ≤ sk.heap.length
+  mono : Mono s sk
+  others : ∀ (j : Nat) (b : PNode), s.heap.length ≤ j → j ≠ ret → sk.heap[j]? = some b → b.kw.filled = true
+
+/-- the partial `ret` after `i` items were appended (`k`: at least one child was converted) -/
+def RS (sk : St) (ret i : Nat) (k : Bool) : Prop :=
+  ∃ a, sk.heap[ret]? = some a ∧
+    (match a.kw with
+     | .items l => l.length = i ∧ l.all Slot.isRef = true
+     | .item v => k = true → v.isRef = true
+     | .leaf => True)
+
+theorem setKw_len (s : St) (r : Nat) (kw : Kw) : (s.setKw r kw).heap.length = s.heap.length := by
+  simp [St.setKw]
+
+theorem LS_setKw {s sk : St} {ret : Nat} (h : LS s sk ret) (kw : Kw) : LS s (sk.setKw ret kw) ret := by
+  refine ⟨h.hret, by rw [setKw_len]; exact h.hlen, ?_, ?_⟩
+  · intro i a ha
+    have hi := (List.getElem?_eq_some_iff.mp ha).1
+    have hne : ret ≠ i := by have := h.hret; omega
+    rw [setKw_get]
+    simp only [hne, if_false]
+    exact h.mono i a ha
+  · intro j b hj hne hb
+    rw [setKw_get] at hb
+    simp only [Ne.symm hne, if_false] at hb
+    exact h.others j b hj hne hb
+
+theorem LS_HS {s sk sk2 : St} {ret : Nat} (h : LS s sk ret) (h2 : HS sk sk2) : LS s sk2 ret := by
+  refine ⟨h.hret, Nat.le_trans h.hlen h2.1, h.mono.trans h2.2.1, ?_⟩
+  intro j b hj hne hb
+  by_cases hjk : j < sk.heap.length
+  · obtain ⟨y, hy, hyb⟩ := h2.2.1 j sk.heap[j] (List.getElem?_eq_getElem hjk)
+    rw [hb] at hy
+    simp only [Option.some.injEq] at hy
+    subst hy
+    exact KwLe_filled hyb (h.others j _ hj hne (List.getElem?_eq_getElem hjk))
+  · exact h2.2.2 j b (by omega) hb
+
+theorem RS_HS {sk sk2 : St} {ret i : Nat} {k : Bool} (h : RS sk ret i k) (h2 : HS sk sk2) : RS sk2 ret i k := by
+  obtain ⟨a, ha, hk⟩ := h
+  obtain ⟨b, hb, hab⟩ := h2.2.1 ret a ha
+  refine ⟨b, hb, ?_⟩
+  cases hka : a.kw <;> cases hkb : b.kw <;> rw [hka, hkb] at hab <;> simp only [KwLe] at hab <;> rw [hka] at hk
+    <;> simp only at hk ⊢
+  · exact fun hh => hab (hk hh)
+  · exact ⟨hab.1 ▸ hk.1, SlotsLe_all hab hk.2⟩
+
+theorem insertAt_end (l : List Slot) (i : Nat) (h : l.length = i) : insertAt l i .none = l ++ [.none] := by
+  subst h
+  simp [insertAt]
+
+theorem set_all_ref (l l2 : List Slot) (i r : Nat) (hl : l.length = i) (hall : l.all Slot.isRef = true)
+    (hle : SlotsLe (l ++ [.none]) l2) :
+    (l2.set i (.ref r)).length = i + 1 ∧ (l2.set i (.ref r)).all Slot.isRef = true := by
+  have hlen : l2.length = i + 1 := by rw [← hle.1]; simp [hl]
+  refine ⟨by simp [hlen], ?_⟩
+  rw [List.all_eq_true] at hall ⊢
+  intro x hx
+  obtain ⟨j, hj, rfl⟩ := List.mem_iff_getElem.mp hx
+  rw [List.getElem_set]
+  split
+  · rfl
+  · rename_i hne
+    have hj2 : j < l2.length := by simpa using hj
+    have hjl : j < l.length := by omega
+    obtain ⟨w, hw, hwr⟩ := hle.2 j l[j] (by rw [List.getElem?_append_left hjl]; exact List.getElem?_eq_getElem hjl)
+      (hall _ (List.getElem_mem hjl))
+    rw [List.getElem?_eq_getElem hj2] at hw
+    simp only [Option.some.injEq] at hw
+    rw [hw]; exact hwr
+
+theorem setKw_get_same (s : St) (r : Nat) (kw : Kw) (a : PNode) (h : s.heap[r]? = some a) :
+    (s.setKw r kw).heap[r]? = some { a with kw := kw } := by
+  rw [setKw_get]; simp [h]
+
+theorem stepKid_spec (g : Grammar) (rec : Rec) (s : St) (ret : Nat)
+    (hrec : ∀ c p i h s r s', c < g.length → rec c p i h s = some (r, s') → HS s s' ∧ r.isSome = true)
+    (c i : Nat) (sk : St) (k : Bool) (i' : Nat) (sk' : St) (hc : c < g.length)
+    (h : stepKid rec ret c i sk = some (i', sk')) (hL : LS s sk ret) (hR : RS sk ret i k) :
+    LS s sk' ret ∧ RS sk' ret i' true := by
+  obtain ⟨a, ha, hk⟩ := hR
+  have hnode := node_of_get ha
+  unfold stepKid at h
+  split at h
+  · exact absurd h (by simp)
+  · rename_i item s2 hr
+    obtain ⟨hHS, hsome⟩ := hrec _ _ _ _ _ _ _ hc hr
+    obtain ⟨r, rfl⟩ := Option.isSome_iff_exists.mp hsome
+    cases hka : a.kw with
+    | items l =>
+      rw [hka] at hk
+      simp only at hk
+      have e1 : addPlaceholder sk ret i = sk.setKw ret (.items (l ++ [.none])) := by
+        unfold addPlaceholder
+        rw [hnode, hka]
+        simp only [insertAt_end l i hk.1]
+      rw [e1] at hHS
+      have hL1 : LS s (sk.setKw ret (.items (l ++ [.none]))) ret := LS_setKw hL _
+      have hL2 := LS_HS hL1 hHS
+      obtain ⟨b, hb, hab⟩ := hHS.2.1 ret _ (setKw_get_same sk ret _ a ha)
+      have hnode2 := node_of_get hb
+      cases hkb : b.kw with
+      | leaf => rw [hkb] at hab; simp [KwLe] at hab
+      | item w => rw [hkb] at hab; simp [KwLe] at hab
+      | items l2 =>
+        rw [hkb] at hab
+        simp only [KwLe] at hab
+        rw [hnode2, hkb] at h
+        simp only [Option.some.injEq, Prod.mk.injEq] at h
+        obtain ⟨rfl, rfl⟩ := h
+        refine ⟨LS_setKw hL2 _, ⟨_, setKw_get_same s2 ret _ b hb, ?_⟩⟩
+        simp only
+        exact set_all_ref l l2 i r hk.1 hk.2 hab
+    | item v =>
+      have e1 : addPlaceholder sk ret i = sk := by
+        unfold addPlaceholder
+        rw [hnode, hka]
+      rw [e1] at hHS
+      have hL2 := LS_HS hL hHS
+      obtain ⟨b, hb, hab⟩ := hHS.2.1 ret a ha
+      have hnode2 := node_of_get hb
+      rw [hka] at hab
+      cases hkb : b.kw with
+      | leaf => rw [hkb] at hab; simp [KwLe] at hab
+      | items l2 => rw [hkb] at hab; simp [KwLe] at hab
+      | item w =>
+        rw [hnode2, hkb] at h
+        simp only [Option.some.injEq, Prod.mk.injEq] at h
+        obtain ⟨rfl, rfl⟩ := h
+        refine ⟨LS_setKw hL2 _, ⟨_, setKw_get_same s2 ret _ b hb, ?_⟩⟩
+        simp only
+        exact fun _ => rfl
+    | leaf =>
+      have e1 : addPlaceholder sk ret i = sk := by
+        unfold addPlaceholder
+        rw [hnode, hka]
+      rw [e1] at hHS
+      have hL2 := LS_HS hL hHS
+      obtain ⟨b, hb, hab⟩ := hHS.2.1 ret a ha
+      have hnode2 := node_of_get hb
+      rw [hka] at hab
+      cases hkb : b.kw with
+      | item w => rw [hkb] at hab; simp [KwLe] at hab
+      | items l2 => rw [hkb] at hab; simp [KwLe] at hab
+      | leaf =>
+        rw [hnode2, hkb] at h
+        simp only [Option.some.injEq, Prod.mk.injEq] at h
+        obtain ⟨rfl, rfl⟩ := h
+        refine ⟨hL2, ⟨b, hb, ?_⟩⟩
+        rw [hkb]
+        trivial
+
+theorem loopKids_spec (g : Grammar) (rec : Rec) (s : St) (ret : Nat)
+    (hrec : ∀ c p i h s r s', c < g.length → rec c p i h s = some (r, s') → HS s s' ∧ r.isSome = true) :
+    ∀ (kids : List Nat) (i : Nat) (sk : St) (k : Bool) (sk' : St), (∀ c ∈ kids, c < g.length) →
+      loopKids rec ret kids i sk = some sk' → LS s sk ret → RS sk ret i k →
+      LS s sk' ret ∧ ∃ i', RS sk' ret i' (k || !kids.isEmpty) := by
+  intro kids
+  induction kids with
+  | nil =>
+    intro i sk k sk' _ h hL hR
+    simp only [loopKids, Option.some.injEq] at h
+    subst h
+    exact ⟨hL, i, by simpa using hR⟩
+  | cons c cs ih =>
+    intro i sk k sk' hin h hL hR
+    unfold loopKids at h
+    split at h
+    · exact absurd h (by simp)
+    · rename_i i1 s1 hs
+      obtain ⟨hL1, hR1⟩ := stepKid_spec g rec s ret hrec c i sk k i1 s1 (hin c (List.mem_cons_self ..)) hs hL hR
+      obtain ⟨hL2, i2, hR2⟩ := ih i1 s1 true sk' (fun c' hc' => hin c' (List.mem_cons_of_mem _ hc')) h hL1 hR1
+      exact ⟨hL2, i2, by simpa using hR2⟩
+
 end PP.Diagram
